@@ -284,8 +284,12 @@ func verifC06_SignVerify() {
 	case 4:
 		// letters, spaces and tabs: values that differ only by runs of SPACES are one value by
 		// design (the canonical form trims and collapses them) - anything else is a change
-		sent.header = verifString("sent.signedHeaderValue", n)
-		verifAssume(vLettersSpacesTabs(sent.header))
+		if verifBool("sent.signedHeaderValueFromThePool") {
+			sent.header = []string{"a b", "a\tb", "a \tb", "ab", "a  b", " a\tb "}[verifChoose("sent.signedHeaderValue", 6)]
+		} else {
+			sent.header = verifString("sent.signedHeaderValue", n)
+			verifAssume(vLettersSpacesTabs(sent.header))
+		}
 	case 5:
 		sent.body = verifBytes("sent.body", verifChoose("sent.bodyLength", n+1))
 	}
